@@ -106,7 +106,7 @@ func TestC08(t *testing.T) {
 	c.Rule("control_errors: the same generator with throw / runtime errors / try-catch-finally / defer statements switched on (profile 'control+errors'): the top-level program and the functions register deferred calls before they return, loops are left by break/continue while errors are raised and caught; same oracle, same non-triviality rule")
 	h.Run(c, "control_errors", c.N(8000, 80000), genErrors, oracle)
 	c.Rule("parallel: 2-3 judged programs (tight loops of 300-1200 passes over if/else-if/else, for cond, ternary, !, &&, ||, continue, switch with condition values of every specified truthiness class, non-empty strings above all) run at the same time on goroutines and in environments of their own next to 1-3 never-judged disturber scripts that test every kind of value (also the strings whose truth value is left open); each judged program must count the branches the reference interpreter counts; non-trivial = a judged program tests a string")
-	h.Run(c, "parallel", c.N(60, 600), genPar, oraclePar)
+	h.Run(c, "parallel", c.N(60, 200), genPar, oraclePar)
 	h.Run(c, "trysignal", 1, genTrySignal, oracleTrySignal)
 }
 
